@@ -77,6 +77,7 @@ SVar(k) == <<"svar", k>>
 RecordFields ==
   [IR1 |-> <<<<"A", B("int")>>, <<"B", B("string")>>>>,
    IR2 |-> <<<<"Name", B("string")>>, <<"Vals", <<"slice", B("int")>>>>>>,
+   IR3 |-> <<<<"C", B("int")>>, <<"D", B("string")>>>>,
    IBox |-> <<<<"Val", SVar(1)>>, <<"Tag", B("string")>>>>]
 RECURSIVE InstArgs(_, _)
 InstArgs(t, targs) ==
